@@ -367,7 +367,7 @@ func main() {
 						cur := readIdx()
 						if cur != lastIdx {
 							lastIdx, lastChange = cur, time.Now()
-						} else if cur >= 0 && time.Since(lastChange) > 120*time.Second {
+						} else if cur >= 0 && time.Since(lastChange) > 60*time.Second {
 							cmd.Process.Kill()
 							<-done
 							hung = true
